@@ -35,24 +35,61 @@ func isCallTo(e ast.Expr, name string) (*ast.CallExpr, bool) {
 }
 
 // hasMuxLock: the function body takes ab.mux.Lock/RLock at its top level.
+// hasMuxLock: the body takes the ledger lock in a top-level statement and keeps it until it returns: the
+// release is a top-level `defer …mux.(R)Unlock()` and there is no explicit (non-deferred) release anywhere.
 func hasMuxLock(body *ast.BlockStmt) bool {
 	if body == nil {
 		return false
 	}
-	for _, st := range body.List {
-		es, ok := st.(*ast.ExprStmt)
+	isMuxCall := func(e ast.Expr, names ...string) bool {
+		c, ok := e.(*ast.CallExpr)
 		if !ok {
-			continue
+			return false
 		}
-		if c, ok := es.X.(*ast.CallExpr); ok {
-			if sel, ok := c.Fun.(*ast.SelectorExpr); ok && (sel.Sel.Name == "Lock" || sel.Sel.Name == "RLock") {
-				if inner, ok := sel.X.(*ast.SelectorExpr); ok && inner.Sel.Name == "mux" {
-					return true
-				}
+		sel, ok := c.Fun.(*ast.SelectorExpr)
+		if !ok {
+			return false
+		}
+		inner, ok := sel.X.(*ast.SelectorExpr)
+		if !ok || inner.Sel.Name != "mux" {
+			return false
+		}
+		for _, n := range names {
+			if sel.Sel.Name == n {
+				return true
+			}
+		}
+		return false
+	}
+	locks, deferred := false, false
+	for _, st := range body.List {
+		switch x := st.(type) {
+		case *ast.ExprStmt:
+			if isMuxCall(x.X, "Lock", "RLock") {
+				locks = true
+			}
+		case *ast.DeferStmt:
+			if isMuxCall(x.Call, "Unlock", "RUnlock") {
+				deferred = true
 			}
 		}
 	}
-	return false
+	if !locks || !deferred {
+		return false
+	}
+	explicit := false
+	ast.Inspect(body, func(n ast.Node) bool {
+		switch x := n.(type) {
+		case *ast.FuncLit:
+			return false
+		case *ast.ExprStmt:
+			if isMuxCall(x.X, "Unlock", "RUnlock") {
+				explicit = true
+			}
+		}
+		return true
+	})
+	return !explicit
 }
 
 func genWalker(src, out string) {
